@@ -61,6 +61,7 @@ def _signed_pattern_arrays(ncells, positive=False):
 
 DTYPES = {"quick": ["float64", "int64", "bool"], "thorough": ["float64", "int64", "bool", "int8"]}
 FRACTIONAL_SCALARS = [0.5, -2.5]
+NEAR2 = 2.0 + 2.0 ** -30
 # (value, NumPy scalar type): np.float64 is a Python float; np.int64 is not a Python int
 TYPED_SCALARS = [[0.0, "float64"], [2.0, "float64"], [0.5, "float64"], [-2.5, "float64"],
                  [-1, "int64"], [0, "int64"], [2, "int64"]]
@@ -69,12 +70,14 @@ TYPED_SCALARS = [[0.0, "float64"], [2.0, "float64"], [0.5, "float64"], [-2.5, "f
 def _dtype_alphabet(dtype, side):
     """Values an operand of the storage dtype ranges over (all exactly representable in it).  Integer storage: the
     base alphabets of the float space.  float64 storage additionally holds non-integral values: 0.5 (truncates to an
-    implicit zero; equal on both sides) and, on the right, -3.5 (truncates to the left value -3)."""
+    implicit zero; equal on both sides) and, on the right, -3.5 (truncates to the left value -3) and 2 + 2^-30."""
     if dtype == "bool":
         return [0.0, 1.0]
     ints = [0.0, 2.0, -3.0] if side == "L" else [0.0, 2.0, -2.0]
     if np.dtype(dtype).kind == "f":
-        return ints + ([0.5] if side == "L" else [0.5, -3.5])
+        # right side also: a value that differs from the left value 2 by 2^-30 (within any "close enough" tolerance, yet
+        # not equal: comparisons are exact)
+        return ints + ([0.5] if side == "L" else [0.5, -3.5, NEAR2])
     return ints
 
 
